@@ -2,6 +2,7 @@
 """debug helper: print functions matching a regex in readable MIR text (current tree)"""
 import sys, facts, framework
 F = facts.Facts(framework.ensure_facts("dev"))
+import expr; expr.FACTS = F
 for f in F.find(sys.argv[1]):
     print(facts.dump(f, cleanup=len(sys.argv) > 2))
     print()
